@@ -559,7 +559,9 @@ func verifE2ECase(o *vh.Out, id string, rg *vh.Rng, given [][]string) {
 			}
 			emit([]string{"read", fmt.Sprint(h), fmt.Sprint(rg.Intn(len(v.socks[h])))})
 		case k < 92:
-			emit([]string{"adv", fmt.Sprint(rg.Pick(100, 1500, 2500, 6000, 31000))})
+			// steps end in 7 so that no sum of a few of them equals a mapping lifetime exactly (at that
+			// boundary the code's answer depends on microseconds of real time)
+			emit([]string{"adv", fmt.Sprint(rg.Pick(107, 1507, 2507, 6007, 31007))})
 		case k < 95:
 			h := rg.Intn(len(v.hosts))
 			if len(v.socks[h]) == 0 {
